@@ -112,6 +112,18 @@ CHECKS = {
         ref="DESIGN.md 6 (C10), A.4",
         technique="TLC-generated expression grammar replayed through the real operators (3 supplies); TLC trace "
                   "validation of outcome in Allowed(expr)"),
+    "C07": dict(
+        text="spec/GenCalls.tla enumerates every signature with 0..3 (thorough: 0..4) parameters x every call shape Python "
+             "accepts (plus shapes missing a required parameter) x 10 placements of the call site (depth 0-3, collection "
+             "operators, Where, First, dictionary field, re-used parameter names with same-named methods of another "
+             "signature, registered functions). Real classes are generated per signature, the query is built with the "
+             "real operators and TLC (TraceTyped.JudgeCall) compares the emitted call with TypeFollow.Normalized: all "
+             "parameters positional in declaration order, no keyword left, ValueError iff a required parameter is "
+             "missing, stream operators inside lambdas keep exactly the user's arguments. TypeFollow's binding is itself "
+             "cross-checked against inspect.Signature.bind on every case.",
+        ref="DESIGN.md 6 (C07)",
+        technique="TLC-enumerated signatures x call shapes x placements rendered to real classes; TLC trace validation "
+                  "of the emitted call against the specification's Python binding (cross-checked with inspect)"),
 }
 
 ORDER = ["C%02d" % i for i in range(1, 21)]
